@@ -198,3 +198,24 @@ def panic(ctx):
         ctx.note('%d functions, %d panic sites' % (len(reach), n))
     finally:
         c14.PANIC_EXCEPTIONS[:] = saved
+
+
+REMOVALS = (r'Vec::<[^>]*>::(dedup|dedup_by|dedup_by_key|retain|retain_mut|truncate|pop|remove|swap_remove|drain|clear|split_off)$',
+            r'^std::iter::Iterator::(filter|filter_map|skip|take|step_by|skip_while|take_while|nth|last|find)$')
+
+
+@rule('C15', 'dnf-keeps-clauses')
+def dnf_keeps_clauses(ctx):
+    """A necessary condition of DNF equivalence that is visible in the shape of to_dnf: no clause is ever removed
+    (the disjunction arm concatenates both sides, the conjunction arm builds the full product)."""
+    F = ctx.F
+    key = 'abe_policy::access_policy::AccessPolicy::to_dnf'
+    fam = F.family(key)
+    bad = []
+    for fb in fam:
+        bad += fb.calls(*REMOVALS)
+    ctx.check(not bad, key, 'no clause removal', 'to_dnf removes clauses through `%s` (line %d): the disjunctive normal form may no longer be '
+              'equivalent to the policy' % (bad[0].name if bad else '', bad[0].ln if bad else 0), 'no dedup / retain / filter / truncate', F.fn(key).where())
+    rec = [c for fb in fam for c in fb.calls(r'AccessPolicy::to_dnf$')]
+    ctx.check(len(rec) >= 4, key, 'recurses on both operands', 'to_dnf recurses %d times; both operands of a conjunction and of a disjunction '
+              'must be converted' % len(rec), '%d recursive calls' % len(rec), F.fn(key).where())
